@@ -1846,11 +1846,54 @@ def classification(rep: Report, ctx: Ctx, rule: str) -> None:
            node=fi.node, detail=f"returns {[(e.args, e.guards) for e in effs]}")
 
 
+def break_partition(rep: Report, ctx: Ctx, rule: str) -> None:
+    """Which break events are re-attached like end events (behind the loop
+    node only) and which keep their own place in the parent graph."""
+    from .effspec import effects, expect
+    fi = ctx.func("calculate_updated_graph_with_loop_event")
+    ROOT = "[each(P:graph.in_degree())[0] for.. if (0 Eq each(P:graph." \
+           "in_degree())[1])][0]"
+    B = "each(P:loop.break_events)"
+    NOROOT = f"{{{B} for.. if Not(has_path(P:graph,{ROOT},{B}))}}"
+    ISO = f"{{each({NOROOT}) for.. if (Not(has_path(P:graph,{B},each(" \
+          f"{NOROOT}))) And ({B} NotEq each({NOROOT})))}}"
+    effs = effects(ctx, fi, names={
+        "update_graph_for_loop_end_events",
+        "update_graph_for_break_events_with_path_to_root_event"})
+
+    def ab(x):  # type: ignore[no-untyped-def]
+        if isinstance(x, (tuple, list)):
+            return type(x)(ab(y) for y in x)
+        return x.replace(ISO, "ISOLATED").replace(NOROOT, "NOROOT")
+    for e in effs:
+        e.args = ab(e.args)
+    expect(rep, rule, fi, effs, "break events that neither the root (once "
+           "the loop is cut out) nor another break event reaches are "
+           "re-attached behind the loop node like end events", kind="call",
+           name="update_graph_for_loop_end_events",
+           args=("ISOLATED", "P:loop.loop_events", "P:loop_event", "P:graph"))
+    expect(rep, rule, fi, effs, "all other break events keep their place "
+           "and get the loop node as one more predecessor", kind="call",
+           name="update_graph_for_break_events_with_path_to_root_event",
+           args=("(P:loop.break_events Sub ISOLATED)", "P:loop.loop_events",
+                 "P:loop_event", "P:graph"))
+
+
+def r722b(rep: Report, ctx: Ctx) -> None:
+    from .effspec import check_table
+    from .walkspec import INGEST_TABLE
+    check_table(rep, ctx, "R7.22", INGEST_TABLE, [
+        "is_end_of_potential_ends", "remove_nodes_without_path_back_to_loop",
+        "create_graph_from_events"])
+
+
 def r722(rep: Report, ctx: Ctx) -> None:
     rep.rule("R7.22", "the components of a loop (start, end, break events, "
              "loop-back edges) are computed as defined: which set from "
              "which, under which case split", 17)
     classification(rep, ctx, "R7.22")
+    r722b(rep, ctx)
+    break_partition(rep, ctx, "R7.22")
 
 
 def r723(rep: Report, ctx: Ctx) -> None:
